@@ -48,7 +48,8 @@ def main():
     report = {"property": prop, "agent_meta": meta}
     try:
         repo = root / "repo"
-        shutil.copytree("/repo", repo, ignore=shutil.ignore_patterns(".git", "__pycache__", "docs", "*.pyc", "SPIL_PROJECTS"))
+        # the demo copy keeps the example data tree that the suite generates (some demos search it)
+        shutil.copytree("/repo", repo, ignore=shutil.ignore_patterns(".git", "__pycache__", "docs", "*.pyc"))
         demo_local = demo.replace(str(wt), str(repo))
         (repo / "seed_demo.py").write_text(demo_local)
         env = dict(os.environ, HOME=str(root / "home"))
